@@ -48,7 +48,8 @@ var constOverride = map[string]string{
 	"numSubLocks":            "64",
 	"numMediumLocks":         "64",
 	"numPubLocks":            "64",
-	"numSubDissolverWorkers": "4",
+	"numSubDissolverWorkers": "2",
+	"numHubShards":           "1",
 }
 
 // literalOverride: inside the named function, comparison literals are replaced (verification
